@@ -30,7 +30,7 @@ def expected_round(case, with_faults=True):
     """What the documentation says one run of the case must log, call by call:
     list of (tick, [(box, nabe, idx, seen_box)], active_after, final_or_None).  Written from the docstrings of
     Boxer.run/exen/end and the property text; uses only the documented pile (`ab.pile_of/split`)."""
-    boxes, first, ticks, endat, (style, mode, raises, enders, rerun, neighbour) = ab.parts(case)
+    boxes, first, ticks, endat, (style, mode, raises, enders, rerun, neighbour, truth, verbs) = ab.parts(case)
     if not with_faults:
         raises, enders = [], []
     raising = {}
@@ -130,7 +130,7 @@ def oracle_case(case, obs):
 
 
 def _oracle_case(case, obs):
-    boxes, first, ticks, endat, (style, mode, raises, enders, rerun, neighbour) = ab.parts(case)
+    boxes, first, ticks, endat, (style, mode, raises, enders, rerun, neighbour, truth, verbs) = ab.parts(case)
     bad = []
 
     def flag(c):
@@ -243,7 +243,10 @@ class C25(core.Check):
             "preacts and goacts whose truth at each tick is a bit mask, optional first box, 0-10 ticks, optional end tick; options: 7 declaration-style bits "
             "(over/dest as name, Box, '' or next; at()+do vs do(nabe=); interleaved declaration; first via attribute), drive mode (make+send, direct construction, "
             "BoxerDoer under a Doist), acts that raise one of 13 exception classes (incl. BaseException kinds) at a chosen executed event and tick, acts "
-            "(preacts and goacts included) that set the end bag, re-run of the same Boxer, a neighbour Boxer sharing the Hold. "
+            "(preacts and goacts included) that set the end bag, re-run of the same Boxer, a neighbour Boxer sharing the Hold, precondition / need answers "
+            "drawn from the whole truthy / falsy object space through every way of declaring a preact or need (callable, Need, on(expr), ActBase subclass, "
+            "statement string, expr string over the hold), act lists built through every verb (do, be with callable, be with expr) inside at() sections "
+            "and with nabe= per call in every context. "
             "Three generators: scripted walks (one chosen transition per pass, 25% with a failing entry precondition), chaotic masks "
             "(several goacts firing in one pass), exhaustive single transitions per shape (thorough). "
             "non-trivial = at least one pass in which a goact fired (transition attempted); distinct by request line")
@@ -299,6 +302,23 @@ class C25(core.Check):
         # exception raised by the ending pass and by the very first predo
         c.append(([(-1, R, [], []), (0, R, [], [])], -1, 3, 2, (0, 0, [(1, "exdo", 1, 2, "RuntimeError")], [], 1, 0)))
         c.append(([(-1, R, [0b1], []), (0, R, [], [])], -1, 3, -1, (0, 2, [(0, "predo", 0, 0, "HierError")], [], 0, 0)))
+        # r4m2: a precondition / need whose answer is falsy but not the object False (0, None, '', [] …) vetoes all the same;
+        # every way of giving a preact (callable, Need, on(expr), ActBase subclass, statement string) and a go-need
+        f52 = ([(-1, R, [], [(1, 0b11100)]), (-1, R, [0b1], [])], -1, 4, -1)
+        kept = ([(-1, R, [], []), (0, R, [], [(2, 0b1100)]), (0, R, [0b1011, 0], [])], -1, 4, -1)
+        for truth in range(1, 16):
+            c.append(f52 + ((0, truth % 3, [], [], 0, 0, truth),))
+            c.append(kept + ((truth * 9 % 128, (truth + 1) % 3, [], [], 0, 0, truth),))
+        # r5m2: act lists built through every verb: each section `do 1; be 2; do 3`-like mixes of do / be(callable) /
+        # be(expr) inside at() sections and with nabe= per call, in every context, over a transition that keeps, leaves
+        # and arrives, a refused attempt, and the end
+        R3 = (3, 3, 3, 3, 3, 3, 3, 3)
+        sect = ([(-1, R3, [], []), (0, R3, [], []), (1, R3, [0b10111], [(3, 0b100), (2, 0b1000)]), (1, R3, [0b10111, 0b11111], [(2, 0b1000)])], -1, 5, 5)
+        for verbs in range(1, 25):
+            c.append(sect + ((0 if verbs % 2 else 32, verbs % 3, [], [], 0, 0, 0, verbs),))
+        for truth in (1, 2, 3, 4, 5, 6, 7, 8):    # first pile refused by a non-bool falsy precondition
+            c.append(([(-1, R, [0b1110], []), (0, R, [0], [])], -1, 2, -1, (0, truth % 3, [], [], 0, 0, truth)))
+            c.append(([(-1, R, [0b1111], []), (0, R, [0b1110], [])], -1, 2, -1, (0, truth % 3, [], [], 0, 0, truth)))
         return c
 
     @staticmethod
@@ -321,7 +341,12 @@ class C25(core.Check):
         top = 3 if tier != "thorough" else 5
         for n in range(1, top + 1):
             for ps in ab.all_shapes(n):
-                cs += ab.single_transitions(ps)
+                for c in ab.single_transitions(ps):
+                    cs.append(c)
+                    if any(b[2] for b in c[0]):      # the refused variants again with a falsy-but-not-False answer
+                        cs.append(c + ((0, len(cs) % 3, [], [], 0, 0, 1 + len(cs) % 40, len(cs) % 7),))
+                    elif len(cs) % 2:                # accepted ones again with the act lists built through do / be, at() / nabe=
+                        cs.append(c + ((0, len(cs) % 3, [], [], 0, 0, 0, 1 + len(cs) % 60),))
         return cs, (f"every ordered forest of <= {top} boxes x every (start, declaring box, dest) single transition x (pass | failing preact "
                     "on each arrived box), then end; one transition+end run with a raise at every executed event position")
 
@@ -364,9 +389,13 @@ class C25(core.Check):
             raises = [(b, nb, k, t, "MemoryError" if nm == "GeneratorExit" else nm) for (b, nb, k, t, nm) in raises]
         rerun = 1 if rng.random() < 0.15 else 0
         neighbour = 1 if rng.random() < 0.15 else 0
-        if (style, mode, raises, enders, rerun, neighbour) == ab.NOOPTS:
+        # preconditions / needs answering with any truthy / falsy object through every way of declaring them
+        truth = rng.randrange(1, 1000) if rng.random() < 0.5 else 0
+        # act lists built through every verb (do / be callable / be expr) in at() sections and with nabe= per call
+        verbs = rng.randrange(1, 1000) if rng.random() < 0.5 else 0
+        if (style, mode, raises, enders, rerun, neighbour, truth, verbs) == ab.NOOPTS:
             return base
-        return base[:4] + ((style, mode, raises, enders, rerun, neighbour),)
+        return base[:4] + ((style, mode, raises, enders, rerun, neighbour, truth, verbs),)
 
     def request(self, case):
         return ab.request(case)
@@ -391,11 +420,30 @@ class C25(core.Check):
         return False
 
     def features(self, case, obs):
-        boxes, first, ticks, endat, (style, mode, raises, enders, rerun, neighbour) = ab.parts(case)
+        boxes, first, ticks, endat, (style, mode, raises, enders, rerun, neighbour, truth, verbs) = ab.parts(case)
         f = [f"boxes={len(boxes)}", f"mode={('make', 'direct', 'doist')[mode]}"]
         f += ["final=" + "-".join(str(x) for x in r) for r in obs if not isinstance(r[0], int)]
         if style:
             f.append("style:nonstandard-declaration")
+        if verbs % 4 == 3:
+            f.append("verbs:library-acts(lapse/relapse marks via on(), Count)")
+        if verbs:
+            f.append("verbs:do/be-mix")
+            for i, b in enumerate(boxes):
+                for nabe, n in zip(ab.NABES8, b[1]):
+                    for k in range(n):
+                        h = verbs * 13 + i * 7 + ab.NABE_ORD.get(nabe, 9) * 5 + k * 3
+                        f.append(f"act:{('do', 'be-callable', 'be-expr')[h % 3]}:{('at-section', 'nabe-kw')[(h // 3) % 2]}:{nabe}")
+        if truth:
+            f.append("truth:any-object-answers")
+            for i, b in enumerate(boxes):
+                for k, m in enumerate(b[2]):
+                    w = (truth + i * 3 + k) % 5
+                    if w == 4 and m & ((1 << (ticks + 2)) - 1):
+                        w = 0
+                    f.append("preact-given-as:" + ("callable", "Need", "on-expr", "ActBase-subclass", "statement-str")[w])
+                for j, g in enumerate(b[3]):
+                    f.append("need-given-as:" + ("Need-subclass", "expr-str", "on-expr")[(truth + i + j * 2) % 3])
         if rerun and mode != 2:
             f.append("rerun-same-boxer")
         if neighbour and mode != 2:
@@ -442,24 +490,34 @@ class C25(core.Check):
 
     def shrink(self, case):
         boxes, first, ticks, endat, opts = ab.parts(case)
-        style, mode, raises, enders, rerun, neighbour = opts
+        style, mode, raises, enders, rerun, neighbour, truth, verbs = opts
         n = len(boxes)
 
         def mk(bx, fi, ti, en, o=opts):
             return (bx, fi, ti, en) if tuple(o) == ab.NOOPTS else (bx, fi, ti, en, o)
         # simplify the options first
+        if verbs:
+            yield mk(boxes, first, ticks, endat, (style, mode, raises, enders, rerun, neighbour, truth, 0))
+            if verbs > 6:
+                for vb in range(1, 7):
+                    yield mk(boxes, first, ticks, endat, (style, mode, raises, enders, rerun, neighbour, truth, vb))
+        if truth:
+            yield mk(boxes, first, ticks, endat, (style, mode, raises, enders, rerun, neighbour, 0, verbs))
+            if truth > 5:
+                for tr in range(1, 6):
+                    yield mk(boxes, first, ticks, endat, (style, mode, raises, enders, rerun, neighbour, tr, verbs))
         if style:
-            yield mk(boxes, first, ticks, endat, (0, mode, raises, enders, rerun, neighbour))
+            yield mk(boxes, first, ticks, endat, (0, mode, raises, enders, rerun, neighbour, truth, verbs))
         if mode:
-            yield mk(boxes, first, ticks, endat, (style, 0, raises, enders, rerun, neighbour))
+            yield mk(boxes, first, ticks, endat, (style, 0, raises, enders, rerun, neighbour, truth, verbs))
         if rerun:
-            yield mk(boxes, first, ticks, endat, (style, mode, raises, enders, 0, neighbour))
+            yield mk(boxes, first, ticks, endat, (style, mode, raises, enders, 0, neighbour, truth, verbs))
         if neighbour:
-            yield mk(boxes, first, ticks, endat, (style, mode, raises, enders, rerun, 0))
+            yield mk(boxes, first, ticks, endat, (style, mode, raises, enders, rerun, 0, truth, verbs))
         for j in range(len(raises)):
-            yield mk(boxes, first, ticks, endat, (style, mode, raises[:j] + raises[j + 1:], enders, rerun, neighbour))
+            yield mk(boxes, first, ticks, endat, (style, mode, raises[:j] + raises[j + 1:], enders, rerun, neighbour, truth, verbs))
         for j in range(len(enders)):
-            yield mk(boxes, first, ticks, endat, (style, mode, raises, enders[:j] + enders[j + 1:], rerun, neighbour))
+            yield mk(boxes, first, ticks, endat, (style, mode, raises, enders[:j] + enders[j + 1:], rerun, neighbour, truth, verbs))
         used = {b for (b, *_r) in raises} | {b for (b, *_r) in enders}
         # drop a leaf box that nobody targets
         for i in reversed(range(n)):
